@@ -1,5 +1,6 @@
 import Orx.KSRun
 import Orx.GenThms.Adapt
+import Orx.GenThms.ProtoAdapt
 /-! # C13 cloned() / copied() adaptors are transparent -/
 namespace Orx.Props.C13
 open Orx Orx.KS
@@ -89,5 +90,35 @@ theorem source_adaptors_transparent (len n c : Nat) (evs dr) :
    cloned_fetch_one len c evs dr, copied_fetch_one len c evs dr, cloned_buffered_next len n c evs dr, copied_buffered_next len n c evs dr,
    cloned_skip_to_end len, copied_skip_to_end len, cloned_try_get_len len, copied_try_get_len len,
    cloned_into_seq_iter len c evs dr, copied_into_seq_iter len c evs dr⟩
+
+
+/-! ## The adaptors over a wrapped iterator of references, as in the source (`Generated/ProtoIter.lean`) -/
+section SourceWrapper
+open Orx.RSP Orx.GenP Orx.GenThms.Proto
+
+/-- **`cloned()` / `copied()` over the wrapper of an arbitrary iterator are transparent at the level of program trees**: every
+translated function of the adaptor **equals** the wrapper's function — the same atomic accesses with the same orderings in the
+same order, the same polls of the wrapped iterator, the same indices, chunk boundaries, values (positions), end and skip
+behaviour, whatever the other threads do (every fuel, every environment). `fetch_one` is the trait's default method
+instantiated for the adaptor: the same `fetch_add` on the wrapper's reserved counter followed by the wrapper's `get`. -/
+theorem source_adaptors_over_wrapper_transparent {ρ' : Type} (f : Nat) (it : RSP.IterSelf) (n i : Nat) :
+    (ClonedI.progress_and_get_begin_idx f ⟨it⟩ n : PF ρ' _) = Iter.progress_and_get_begin_idx f it n ∧
+    (CopiedI.progress_and_get_begin_idx f ⟨it⟩ n : PF ρ' _) = Iter.progress_and_get_begin_idx f it n ∧
+    (ClonedI.get f ⟨it⟩ i : PF ρ' _) = Iter.get f it i ∧ (CopiedI.get f ⟨it⟩ i : PF ρ' _) = Iter.get f it i ∧
+    (ClonedI.fetch_one f ⟨it⟩ : PF ρ' _) = Iter.fetch_one f it ∧ (CopiedI.fetch_one f ⟨it⟩ : PF ρ' _) = Iter.fetch_one f it ∧
+    (ClonedI.fetch_n f ⟨it⟩ n : PF ρ' _) = Iter.fetch_n f it n ∧ (CopiedI.fetch_n f ⟨it⟩ n : PF ρ' _) = Iter.fetch_n f it n ∧
+    (ClonedI.early_exit f ⟨it⟩ : PF ρ' _) = Iter.early_exit f it ∧ (CopiedI.early_exit f ⟨it⟩ : PF ρ' _) = Iter.early_exit f it :=
+  ⟨cloned_progress f it n, copied_progress f it n, cloned_get f it i, copied_get f it i, cloned_fetch_one f it, copied_fetch_one f it,
+   cloned_fetch_n f it n, copied_fetch_n f it n, cloned_early_exit f it, copied_early_exit f it⟩
+
+/-- the buffered chunk of the adaptor pulls through the wrapper's buffered chunk on the wrapped wrapper -/
+theorem source_adaptor_buffered_pull_is_the_wrappers {ρ' : Type} (f : Nat) (c : RSP.BufIterSelf) (it : RSP.IterSelf) (b : Nat) :
+    (BufClonedI.pull f ⟨c⟩ ⟨it⟩ b : PF ρ' _) =
+      m_fn (PF.bind (BufIter.pull f c it b : PF _ _) (fun r => (pure (r.1, (⟨r.2⟩ : RSP.AdaptBufSelfP)) : PF _ _))) ∧
+    (BufCopiedI.pull f ⟨c⟩ ⟨it⟩ b : PF ρ' _) =
+      m_fn (PF.bind (BufIter.pull f c it b : PF _ _) (fun r => (pure (r.1, (⟨r.2⟩ : RSP.AdaptBufSelfP)) : PF _ _))) :=
+  ⟨cloned_buf_pull f c it b, copied_buf_pull f c it b⟩
+
+end SourceWrapper
 
 end Orx.Props.C13
